@@ -129,14 +129,15 @@ Definition body_spec (m : method) : bool :=
 Definition path_params (uri : string) : list string :=
   filter (fun n => negb (is_empty n) && sall is_word n) (var_names (utoks uri)).
 
-(* Method.query_params: keys of input.fields (Field.name, i.e. suffixed) minus path params and the body name
-   (both as written in the rule, i.e. NOT suffixed); empty when the body is the whole request *)
+(* Method.query_params: keys of input.fields (Field.name, i.e. suffixed) minus path params and the body name; the
+   rule writes both with the proto names, so they get the reserved-word suffix before the subtraction
+   (proto-plus request types; since c409a6e); empty when the body is the whole request *)
 Definition query_params (m : method) : list string :=
   match r_pat (m_rule m) with
   | PVerb _ u =>
       let body := r_body (m_rule m) in
       if String.eqb body "*" then []
-      else let params := (path_params u ++ (if is_empty body then [] else [body]))%list in
+      else let params := map field_attr (path_params u ++ (if is_empty body then [] else [body]))%list in
            filter (fun k => negb (mem_str k params)) (map (fun f => field_attr (f_name f)) (m_fields m))
   | PNone | PCustom => []
   end.
@@ -392,14 +393,13 @@ Definition var_matches (r : req) (t : utok) : bool :=
   end.
 Definition spec_applies (b : binding) (r : req) : bool := forallb (var_matches r) (utoks (b_uri b)).
 
-(* a field counts as bound by the FIRST rule when its name, or its attribute name, is a path variable of it or
-   its body, or the body is the whole request *)
+(* a field counts as bound by the FIRST rule when its attribute name is the attribute name of a path variable of
+   it or of its body, or the body is the whole request *)
 Definition unbound_first (m : method) (f : field) : bool :=
   match r_pat (m_rule m) with
   | PVerb _ u =>
-      let names := (path_params u ++ [r_body (m_rule m)])%list in
-      negb (String.eqb (r_body (m_rule m)) "*")
-      && negb (mem_str (f_name f) names) && negb (mem_str (field_attr (f_name f)) names)
+      let names := map field_attr (path_params u ++ [r_body (m_rule m)])%list in
+      negb (String.eqb (r_body (m_rule m)) "*") && negb (mem_str (field_attr (f_name f)) names)
   | PNone | PCustom => false
   end.
 Definition scalar_type (t : N) : bool := negb (n_in t [10; 11; 14]%N).
@@ -408,6 +408,55 @@ Definition names_agree (m : method) : bool :=
   forallb (fun f => String.eqb (camel_case (field_attr (f_name f))) (to_json_name (field_attr (f_name f)))) (m_fields m).
 (* a query key stands for (a part of) the top-level field whose JSON name is k *)
 Definition key_under (k key : string) : bool := String.eqb key k || starts_with (k ++ ".") key.
+
+(* ------------------------------------------------------------------ the URI half of the wire-name statement (definitions; proofs in Proofs/HttpUri.v) *)
+(* what the printer may print so that the tokenizer reads it back: literals are non-empty, brace-free and never
+   adjacent; names contain neither "=" nor a closing brace, templates no closing brace *)
+Definition var_printable (n : string) (tm : option string) : bool :=
+  negb (contains "="%char n) && negb (contains "}"%char n)
+  && match tm with Some t => negb (contains "}"%char t) | None => true end.
+Fixpoint printable (ts : list utok) : bool :=
+  match ts with
+  | [] => true
+  | ULit s :: ts' => negb (is_empty s) && negb (contains "{"%char s)
+                     && match ts' with ULit _ :: _ => false | _ => true end && printable ts'
+  | UVar n tm :: ts' => var_printable n tm && printable ts'
+  end.
+Definition starts_lit (ts : list utok) : bool := match ts with ULit _ :: _ => true | _ => false end.
+
+(* the value of the leaf whose attribute path is the component-wise suffixed ORIGINAL dotted name *)
+Definition lookup_by (r : req) (comps : list string) : option string :=
+  match find (fun l => var_exact (map field_attr comps) (lpath l)) r with
+  | Some l => Some (path_text (lval l))
+  | None => None
+  end.
+(* the ORIGINAL template with every variable replaced by that value *)
+Definition expand_orig (ts : list utok) (r : req) : string :=
+  sconcat (map (fun t => match t with
+                         | ULit s => s
+                         | UVar n _ => match lookup_by r (dotted n) with Some s => s | None => "" end
+                         end) ts).
+
+(* ... and when no name is a reserved word followed by an underscore (the only way two names share an attribute),
+   "found under the suffixed attribute path" is "found under the original proto path" *)
+Definition suffix_clash (n : string) : bool := existsb (fun w => String.eqb n (w ++ "_")) RESERVED_NAMES.
+Definition path_clash_free (p : path) : bool :=
+  forallb (fun c => match c with F n => negb (suffix_clash n) | K _ => true end) p.
+
+(* lookup by the ORIGINAL proto path *)
+Definition lookup_proto (r : req) (name : string) : option string :=
+  match find (fun l => path_eqb (lpath l) (var_path name)) r with
+  | Some l => Some (path_text (lval l))
+  | None => None
+  end.
+Definition expand_proto (ts : list utok) (r : req) : string :=
+  sconcat (map (fun t => match t with
+                         | ULit s => s
+                         | UVar n _ => match lookup_proto r n with Some s => s | None => "" end
+                         end) ts).
+Definition names_clash_free (ts : list utok) : bool :=
+  forallb (fun t => match t with ULit _ => true | UVar n _ => forallb (fun c => negb (suffix_clash c)) (dotted n) end) ts.
+Definition req_clash_free (r : req) : bool := forallb (fun l => path_clash_free (lpath l)) r.
 
 (* ------------------------------------------------------------------ comparison helpers for the correspondence checks *)
 Definition binding_eqb (a b : binding) : bool :=
